@@ -1,5 +1,5 @@
 //! C12: arrays, maps and sets behind handles against Handles.tla.
-use crate::c02::quote_arg;
+use crate::c02::lit_arg as quote_arg;
 use crate::common::*;
 use duckscript::types::runtime::Context;
 use serde_json::{json, Value};
@@ -24,6 +24,25 @@ fn real(bij: &Bij, r: &str) -> String {
 fn is_ref(s: &str) -> bool {
     s == "bogus" || (s.len() >= 2 && s.starts_with('h') && s[1..].chars().all(|c| c.is_ascii_digit()))
 }
+/// "@h3" = the handle text of h3 used as a plain value / key
+fn is_handle_value(s: &str) -> bool {
+    s.starts_with('@') && is_ref(&s[1..]) && &s[1..] != "bogus"
+}
+/// real text -> abstract text: a real handle text becomes "@h<id>"
+fn abs(bij: &Bij, s: &str) -> String {
+    if !s.contains("handle:") { return s.to_string(); }
+    let mut t = s.to_string();
+    for (id, h) in bij { if t.contains(h.as_str()) { t = t.replace(h.as_str(), &format!("@h{}", id)); } }
+    t
+}
+fn abs_coll(bij: &Bij, c: Coll) -> Coll {
+    match c {
+        Coll::List(v) => Coll::List(v.iter().map(|x| abs(bij, x)).collect()),
+        Coll::Map(m) => Coll::Map(m.iter().map(|(k, v)| (abs(bij, k), abs(bij, v))).collect()),
+        Coll::Set(s) => Coll::Set(s.iter().map(|x| abs(bij, x)).collect()),
+        Coll::Gone => Coll::Gone,
+    }
+}
 pub fn script_of(op: &Value, bij: &Bij) -> String {
     let cmd = op["cmd"].as_str().unwrap();
     let mut s = format!("o = {}", cmd);
@@ -34,7 +53,7 @@ pub fn script_of(op: &Value, bij: &Bij) -> String {
     }
     for a in strs(&op["args"]) {
         s.push(' ');
-        if cmd == "array_concat" && is_ref(&a) { s.push_str(&real(bij, &a)); } else { s.push_str(&quote_arg(&a)); }
+        if cmd == "array_concat" && is_ref(&a) { s.push_str(&real(bij, &a)); } else if is_handle_value(&a) { s.push_str(&real(bij, &a[1..])); } else { s.push_str(&quote_arg(&a)); }
     }
     s.push('\n');
     s
@@ -102,7 +121,7 @@ fn table_matches(ctx: &Context, bij: &Bij, st: &Value) -> Result<(), String> {
     let next = st["next"].as_u64().unwrap();
     for id in 1..=next {
         let h = bij.get(&id).ok_or(format!("no real handle for id {}", id))?;
-        let got = read_coll(ctx, h)?;
+        let got = abs_coll(bij, read_coll(ctx, h)?);
         let want = exp.get(&id).cloned().unwrap_or(Coll::Gone);
         if got != want {
             return Err(format!("h{} holds {:?}, expected {:?}", id, got, want));
@@ -168,6 +187,9 @@ pub fn replay(args: &[String]) {
             if (states + k as u64) % every != 0 {
                 continue;
             }
+            if nx.get("issued").and_then(|x| x.as_bool()) == Some(false) {
+                continue;
+            }
             trans += 1;
             let mut b2 = bij.clone();
             let next_id = rec["st"]["next"].as_u64().unwrap() + 1;
@@ -176,6 +198,7 @@ pub fn replay(args: &[String]) {
                 Ok((c, o)) => {
                     let mut why = vec![];
                     let eo = &nx["out"];
+                    let o = if eo["k"] == "lit" { o.map(|x| abs(&b2, &x)) } else { o };
                     match eo["k"].as_str().unwrap() {
                         "lit" => if o.as_deref() != Some(eo["v"].as_str().unwrap()) && !(eo["v"] == "" && o.is_none()) { why.push(format!("output {:?} expected {:?}", o, eo["v"])); },
                         "none" => if o.is_some() { why.push(format!("output {:?} expected none", o)); },
@@ -230,7 +253,8 @@ pub fn record(args: &[String]) {
             let created = bij.len() as u64;
             let live_refs: Vec<String> = (1..=created).map(|i| format!("h{}", i)).collect();
             let href = if created == 0 || r.chance(1, 12) { "bogus".to_string() } else { r.pick(&live_refs).clone() };
-            let val = r.pick(VALS).to_string();
+            let hval = |r: &mut Rng| if created > 0 && r.chance(1, 6) { format!("@{}", r.pick(&live_refs)) } else { r.pick(VALS).to_string() };
+            let val = hval(&mut r);
             let idx = if r.chance(1, 8) { "zz".to_string() } else { r.below(6).to_string() };
             let can_create = created < 40;
             let (cmd, h, a): (&str, String, Vec<String>) = match r.below(40) {
@@ -249,7 +273,7 @@ pub fn record(args: &[String]) {
                 16 => ("array_contains", href, vec![val]),
                 17 => ("array_join", href, vec![",".into()]),
                 18 if can_create => ("array_concat", href, vec![if created > 0 { r.pick(&live_refs).clone() } else { "bogus".into() }]),
-                19..=21 => ("map_put", href, vec![r.pick(VALS).to_string(), val]),
+                19..=21 => ("map_put", href, vec![hval(&mut r), val]),
                 22 => ("map_get", href, vec![val]),
                 23 => ("map_remove", href, vec![val]),
                 24 => (*r.pick(&["map_size", "map_clear", "map_is_empty"]), href, vec![]),
@@ -275,10 +299,10 @@ pub fn record(args: &[String]) {
             let mut table = vec![];
             let mut rerr = err.clone();
             for (id, hd) in &b2 {
-                match read_coll(&c, hd) { Ok(cl) => if let Some(j) = coll_json(*id, &cl) { table.push(j); }, Err(e) => rerr = e }
+                match read_coll(&c, hd) { Ok(cl) => if let Some(j) = coll_json(*id, &abs_coll(&b2, cl)) { table.push(j); }, Err(e) => rerr = e }
             }
             let distinct = b2.values().collect::<BTreeSet<_>>().len() == b2.len();
-            out.rec(&json!({"ev": "op", "hist": hist, "cmd": cmd, "h": h, "args": a, "err": rerr, "has_out": o.is_some(), "out": o.clone().unwrap_or_default(),
+            out.rec(&json!({"ev": "op", "hist": hist, "cmd": cmd, "h": h, "args": a, "err": rerr, "has_out": o.is_some(), "out": if created_now { o.clone().unwrap_or_default() } else { abs(&b2, &o.clone().unwrap_or_default()) },
                             "created": created_now, "table": table, "next": b2.len(), "distinct": distinct}));
             events += 1;
             ctx = c;
